@@ -19,15 +19,22 @@ type solverSpec struct {
 	Args func(file string, timeoutSec int) []string
 }
 
-var solvers = []solverSpec{
+var allSolvers = []solverSpec{
 	{"z3-new-5.1.0", func(f string, t int) []string { return []string{"z3-new", "-smt2", fmt.Sprintf("-T:%d", t), f} }},
 	{"cvc5-1.0", func(f string, t int) []string {
-		return []string{"cvc5", "--lang=smt2", "--incremental", fmt.Sprintf("--tlimit=%d", t*1000), f}
+		return []string{"cvc5", "--lang=smt2", fmt.Sprintf("--tlimit=%d", t*1000), f}
 	}},
 	{"z3-4.8.12", func(f string, t int) []string { return []string{"z3", "-smt2", fmt.Sprintf("-T:%d", t), f} }},
 }
 
+// quick tier races the two solvers that decide fastest in practice; the
+// thorough tier runs all three to completion and requires agreement.
+var solvers = allSolvers
+
 var procSem = make(chan struct{}, runtime.NumCPU())
+
+// searchTimeoutSec bounds refutation-only obligations (quick tier keeps them short).
+var searchTimeoutSec = 0
 
 type solveResult struct {
 	Verdicts []string // one per check-sat: unsat, sat, unknown, error
@@ -112,8 +119,9 @@ func solveScript(dir, name, script string, n, timeoutSec int, all bool) solveRes
 		vs     []string
 		out    string
 	}
-	ch := make(chan ans, len(solvers))
-	for _, s := range solvers {
+	use := solvers
+	ch := make(chan ans, len(use))
+	for _, s := range use {
 		go func(s solverSpec) {
 			vs, out := runSolver(ctx, s, file, timeoutSec, n)
 			ch <- ans{s.Name, vs, out}
@@ -122,7 +130,7 @@ func solveScript(dir, name, script string, n, timeoutSec int, all bool) solveRes
 	res := solveResult{All: map[string][]string{}}
 	var best *ans
 	var outputs []string
-	for range solvers {
+	for range use {
 		a := <-ch
 		a2 := a
 		res.All[a.solver] = a.vs
@@ -132,7 +140,7 @@ func solveScript(dir, name, script string, n, timeoutSec int, all bool) solveRes
 		}
 		outputs = append(outputs, a.solver+": "+o)
 		if definitive(a.vs) {
-			if best == nil {
+			if best == nil || !definitive(best.vs) {
 				best = &a2
 				res.Ms = time.Since(start).Milliseconds()
 				if !all {
@@ -147,7 +155,6 @@ func solveScript(dir, name, script string, n, timeoutSec int, all bool) solveRes
 				}
 			}
 		} else if best == nil || !definitive(best.vs) {
-			// keep the most informative partial answer
 			if best == nil || countDef(a.vs) > countDef(best.vs) {
 				best = &a2
 			}
@@ -177,62 +184,75 @@ func countDef(vs []string) int {
 	return n
 }
 
-// discharge runs all obligations in parallel. Each obligation is one
-// incremental script (one check-sat per path/site); a failing part is re-run
-// alone to obtain a model.
+// discharge decides all obligations. Every part (one path or call site) is one
+// stand-alone query, so the solvers' preprocessing is not disabled by push/pop;
+// parts run in parallel, bounded by the number of cores.
 func discharge(obls []*Oblig, dir string, timeoutSec int, all bool) {
 	var wg sync.WaitGroup
 	for _, o := range obls {
+		var parts []OblPart
+		for _, p := range o.Parts {
+			if !p.NegGoal.IsFalse() {
+				parts = append(parts, p)
+			}
+		}
+		sort.SliceStable(parts, func(i, j int) bool { return parts[i].NAssume < parts[j].NAssume })
+		o.Parts = parts
+		o.Status = "unsat"
+		if len(parts) == 0 {
+			o.Solver = "trivial"
+			continue
+		}
 		wg.Add(1)
 		go func(o *Oblig) {
 			defer wg.Done()
-			var parts []OblPart
-			for _, p := range o.Parts {
-				if !p.NegGoal.IsFalse() {
-					parts = append(parts, p)
+			results := make([]solveResult, len(o.Parts))
+			var pw sync.WaitGroup
+			for pi := range o.Parts {
+				pw.Add(1)
+				go func(pi int) {
+					defer pw.Done()
+					p := o.Parts[pi]
+					script := o.Ctx.Script(p.NAssume, p.NegGoal, false)
+					t := timeoutSec
+					if o.Search && searchTimeoutSec > 0 {
+						t = searchTimeoutSec
+					}
+					results[pi] = solveScript(dir, fmt.Sprintf("%s_p%d", o.Name, pi), script, 1, t, all)
+				}(pi)
+			}
+			pw.Wait()
+			solversUsed := map[string]bool{}
+			for pi, r := range results {
+				if r.Ms > o.Ms {
+					o.Ms = r.Ms // parts run in parallel: report the slowest
 				}
-			}
-			sort.SliceStable(parts, func(i, j int) bool { return parts[i].NAssume < parts[j].NAssume })
-			o.Parts = parts
-			o.Status = "unsat"
-			if len(parts) == 0 {
-				o.Solver = "trivial"
-				return
-			}
-			script := o.Ctx.MultiScript(parts)
-			r := solveScript(dir, o.Name, script, len(parts), timeoutSec, all)
-			o.Ms = r.Ms
-			o.Solver = r.Solver
-			for pi, v := range r.Verdicts {
+				solversUsed[r.Solver] = true
+				v := "unknown"
+				if len(r.Verdicts) == 1 {
+					v = r.Verdicts[0]
+				}
 				if v == "unsat" {
 					continue
+				}
+				if o.Status != "unsat" && !(v == "sat" && o.Status != "sat") {
+					continue // keep the first failing part, but prefer a sat one
 				}
 				o.Status = v
 				o.FailedPart = pi
 				o.Output = r.Output
-				if o.Kind == "cover" {
-					break
+				o.Solver = r.Solver
+			}
+			if o.Status == "unsat" {
+				var names []string
+				for s := range solversUsed {
+					names = append(names, s)
 				}
-				// re-run this part alone for a model (and a second opinion)
-				single := o.Ctx.Script(parts[pi].NAssume, parts[pi].NegGoal, true)
-				r2 := solveScript(dir, fmt.Sprintf("%s_part%d", o.Name, pi), single, 1, timeoutSec, false)
-				o.Ms += r2.Ms
-				if len(r2.Verdicts) == 1 && (r2.Verdicts[0] == "sat" || r2.Verdicts[0] == "unsat") {
-					if r2.Verdicts[0] == "unsat" && v != "sat" {
-						// the single query is decided: the incremental run was merely inconclusive here
-						o.Status = "unsat"
-						continue
-					}
-					if r2.Verdicts[0] == "sat" {
-						o.Status = "sat"
-						o.Solver = r2.Solver
-						o.Output = r2.Output
-						o.Model = r2.Output
-						o.FailedPart = pi
-						o.CexVals = extractCex(o, dir, timeoutSec)
-					}
-				}
-				break
+				sort.Strings(names)
+				o.Solver = strings.Join(names, ",")
+			}
+			if o.Status == "sat" && o.Kind != "cover" {
+				o.CexVals = extractCex(o, dir, timeoutSec)
 			}
 		}(o)
 	}
